@@ -1,8 +1,8 @@
 #!/verif/.venv/bin/python
 # Replay of a solver counterexample against the unmodified code (no shims).
-# property=C06 kernel=program label=nested:global_det
+# property=C06 kernel=program label=channel:slots
 import sys
 sys.path[:0] = ['/repo' + "/pulser-core", '/repo' + "/pulser-simulation", "/verif"]
 from symx.replay import replay
-sys.exit(replay(check='checks.c06', kernel='program', shape={'program': 'eom_open_short', 'ext': [0, 3]},
-                assignment={'a0': '1/1024', 'd0': '-1/512', 'a1': '1/1024', 'd1': '3/1024'}, label='nested:global_det'))
+sys.exit(replay(check='checks.c06', kernel='program', shape={'program': 'eom_nodelay', 'ext': [0, 3]},
+                assignment={}, label='channel:slots'))
